@@ -218,6 +218,7 @@ func oracleC02(f *sessionFam, w *World, res *Result) []Violation {
 		}
 		var sends []Ev
 		dupSent, dupGot := 0, 0
+		afterClose := map[string]bool{}
 		cand := map[string]bool{}
 		for _, e := range w.Evs {
 			if e.Sess != a {
@@ -234,6 +235,8 @@ func oracleC02(f *sessionFam, w *World, res *Result) []Violation {
 				sends = append(sends, e)
 			case "c-cand-send":
 				cand[e.S] = true
+			case "c-send-after-close":
+				afterClose[e.S] = true
 			}
 		}
 		closeSeq := 0
@@ -248,6 +251,10 @@ func oracleC02(f *sessionFam, w *World, res *Result) []Violation {
 				if dupGot > dupSent {
 					l.add("exactly-once", sctx, fmt.Sprintf("%s [%s]: inbound message %q delivered %d times, submitted %d times", a, ctx, e.S, dupGot, dupSent))
 				}
+				continue
+			}
+			if afterClose[e.S] {
+				l.add("nothing-after-close-packet", sctx, fmt.Sprintf("%s [%s]: message %q followed a close packet in the same payload and was delivered to the application", a, ctx, clip(e.S, 50)))
 				continue
 			}
 			if cand[e.S] {
